@@ -210,6 +210,11 @@ pub fn check_timeline<S: Shape>(
     };
     let mut sampled = false;
     for t in times {
+        if !spec.exact_at(t) {
+            // a cycle that is not a power of two and an instant whose position is not exact in f32
+            acc.count("skipped_inexact_instant_of_non_dyadic_cycle", 1);
+            continue;
+        }
         let m = mscale_spec(spec, t as f64);
         let mut target = S::default();
         // sentinel contents: results must not depend on them
